@@ -73,7 +73,7 @@ def cases(draw, prof):
     return {"spec": spec, "options": opts}
 
 
-PROFILE = specgen.profile()
+PROFILE = specgen.profile(tuple_dispatch=0.3)
 # lazy members (bare Iter / Map) directly under coalesce: with total callables and no domains "can be validated" and
 # "can be evaluated" coincide, so the eager reference applies to them as well
 LAZY = specgen.profile(lazy_in_coalesce=True, domain_rate=0.0, total_preds=True, max_defs=3)
